@@ -10,21 +10,40 @@ import vlib
 import treeio
 
 
+def _limits():
+    # a runaway parse (non-terminating loop that keeps allocating) must die instead of exhausting the machine
+    import resource
+    try:
+        resource.setrlimit(resource.RLIMIT_AS, (8 << 30, 8 << 30))
+    except (ValueError, OSError):
+        pass
+
+
 def run_json(exe, args, cases, timeout=600):
-    p = subprocess.run([exe] + args, input=json.dumps(cases), capture_output=True, text=True, timeout=timeout)
+    p = subprocess.run([exe] + args, input=json.dumps(cases), capture_output=True, text=True, timeout=timeout,
+                       preexec_fn=_limits)
     if p.returncode != 0:
-        return None, p.stderr[-2000:]
-    return json.loads(p.stdout), ""
+        return None, "exit status %s %s" % (p.returncode, p.stderr[-500:])
+    try:
+        return json.loads(p.stdout), ""
+    except ValueError:
+        return None, "unparsable output"
 
 
 def run_json_robust(exe, args, cases, timeout=600):
-    """Runs a batch; if the process dies (stack overflow / abort / timeout) bisects to isolate the
+    """Runs a batch.  The observers stop at the first case that exceeds their per-case watchdog (they report
+    {"timeout": ms} for it and return fewer results than cases): the rest is resumed in a new process.  If the
+    process dies (stack overflow / abort / out of memory / wall-clock limit) the batch is bisected to isolate the
     offending case(s), which are reported as {"crash": reason}."""
+    if not cases:
+        return []
     try:
         out, err = run_json(exe, args, cases, timeout)
     except subprocess.TimeoutExpired:
         out, err = None, "timeout"
     if out is not None:
+        if len(out) < len(cases):
+            return out + run_json_robust(exe, args, cases[len(out):], timeout)
         return out
     if len(cases) == 1:
         return [{"crash": err or "process died"}]
@@ -75,7 +94,7 @@ def real_tree_line(node, sk_index):
 
 
 def real_parse_line(r, sk_index, with_counts=None):
-    if "panic" in r or "crash" in r:
+    if "panic" in r or "crash" in r or "timeout" in r:
         return "PANIC"
     errs = " ".join("%d:%d:%s" % (e[0], e[1], e[2].replace(" ", "_")) for e in r["errors"])
     return (real_tree_line(r["tree"], sk_index) + " | " + errs).strip()
@@ -117,8 +136,8 @@ def real_leaves(r):
 
 def lossless_oracle(text, r):
     """C01 stated on the real parser's observation; returns None or a description of the failure"""
-    if "panic" in r or "crash" in r:
-        return "parser did not produce a tree: " + str(r.get("panic", r.get("crash")))[:200]
+    if "panic" in r or "crash" in r or "timeout" in r:
+        return "parser did not produce a tree: " + str(r.get("panic", r.get("crash", "no result within %s ms" % r.get("timeout"))))[:200]
     if not r.get("text_ok"):
         return "syntax_node().text() != input"
     bnd, total = char_boundaries(text)
@@ -138,6 +157,8 @@ def lossless_oracle(text, r):
 
 def errors_oracle(text, r):
     """C02 (error part): every error has a non-empty message and a range inside the text on char boundaries"""
+    if "timeout" in r:
+        return "parser did not return within %s ms" % r["timeout"]
     if "panic" in r or "crash" in r:
         return "parser panicked or died: " + str(r.get("panic", r.get("crash")))[:200]
     bnd, total = char_boundaries(text)
